@@ -64,7 +64,7 @@ func TestC02HashIncremental(t *testing.T) {
 	if h0.Sum16() != 0x6F91 {
 		t.Fatalf("x25(\"123456789\") = %#04x, catalogue check value of CRC-16/MCRF4XX is 0x6f91", h0.Sum16())
 	}
-	evid.Check(t, rec, evid.N(20000, 200000), func(t *rapid.T) {
+	evid.Check(t, rec, evid.N(60000, 300000), func(t *rapid.T) {
 		n := rapid.OneOf(rapid.IntRange(0, 600), rapid.IntRange(0, 20)).Draw(t, "n")
 		data := gen.Bytes(t, n, "data")
 		want := ref.CRC(data)
@@ -144,7 +144,7 @@ func TestC02Gate(t *testing.T) {
 	rec.Require("flip-header", "flip-payload", "flip-checksum", "valid-delivered", "foreign-crc-extra", "flip-signature-block")
 	dpool := pool(t)
 	maxFlipLen := 80
-	evid.Check(t, rec, evid.N(2500, 12000), func(t *rapid.T) {
+	evid.Check(t, rec, evid.N(5000, 15000), func(t *rapid.T) {
 		di := drawDialect(t, dpool)
 		f, lay, _ := validFrame(t, di, gen.FrameOpts{}, nil)
 		data := f.Bytes()
